@@ -134,7 +134,7 @@ CLAIMS = {
    tech="Lean 4 decide over a regenerated cfg inventory x 28 configurations + 28 real builds + per-configuration known-answer digests"),
  'C14': dict(cat='proof', ref='DESIGN 5 C14, 3.6, 4.5',
    text="Partial proof + exact trace observation. Proved in Lean (source level): over the inventory of every control construct in the constant-time scope, regenerated on every run, each construct whose guard mentions non-public data "
-        "(or that is an early-exit adaptor, loop exit or `?`) is one of nineteen listed exceptions and the list is tight; the CTEST neutralisations make trip counts input-independent in the model (three-byte and half-byte samplers never "
+        "(or that is an early-exit adaptor, loop exit or `?`), and each index expression or division whose index / divisor mentions non-public data, is one of twenty-two listed exceptions and the list is tight; the CTEST neutralisations make trip counts input-independent in the model (three-byte and half-byte samplers never "
         "reject, a signing attempt never restarts, and sign_internal in test mode returns after exactly one pass for every key, message and random value: ctest_sign_is_single_pass). What rustc/LLVM emit cannot be exhibited by the model: observed on every run as exact equality of edge sequences and (load|store, size, address) sequences of the optimised build, "
         "instrumented in every crate, across RNG outputs for the whole dudect pipeline (3 sets) and across secret vectors for 20 kernel groups; three sensitivity controls must differ.",
    note="Trusted: Lean kernel; the translator's construct scanner and its per-function table of public variables; LLVM sanitizer-coverage callbacks as the observation of control flow and addresses; same-process comparison (one ASLR layout).",
